@@ -5,6 +5,7 @@ package main
 import (
 	"fmt"
 	"math"
+	"strings"
 
 	"github.com/zalf-rpm/Hermes2Go/hermes"
 )
@@ -47,6 +48,14 @@ func (o *c09Oracle) Probe(pt string, zeit, subd int, wdt float64, g *G, w *herme
 			o.cycles = append(o.cycles, o.cur)
 			o.lastInt = -1
 			o.hit("crop.cycles")
+		}
+		if perennialCrop(o.cur.crop) {
+			// a ley preceding the annual crops of the rotation: grown, not judged (the property claims annual crops)
+			if zeit == g.ERNTE[akf] {
+				o.cur.harvest = zeit
+			}
+			o.hit("reach.ley-in-rotation")
+			return
 		}
 		st := g.INTWICK.Index
 		if st < o.lastInt {
@@ -142,6 +151,9 @@ func (o *c09Oracle) Finish(out *RunOutcome, res *Result) {
 	}
 	for i := 0; i < len(st.Recs) && i < len(done); i++ {
 		rec, c := st.Recs[i], done[i]
+		if perennialCrop(c.crop) {
+			continue
+		}
 		geti := func(k string) int {
 			if ci[k] >= len(rec) {
 				return -999
@@ -235,6 +247,15 @@ func init() {
 				}
 				w.Soil.GW = r.Range(1, 4)
 			}
+			if idx%7 == 6 && len(w.Rot) > 2 {
+				// a ley (lucerne, grassland) as the first crop of the rotation: the annual crop behind it starts from the
+				// state a permanent stand leaves
+				per := r.PickS([]string{"AA", "GR"})
+				if paramTables.Crops[per] {
+					w.Rot[1].Crop, w.Rot[1].Variety = per, ""
+					w.Auto = genAutoLines(r, w)
+				}
+			}
 			return &Scenario{Prop: "C09", Kind: "single", World: w, Bug: genBug(r.Sub("bug", 0), false)}
 		},
 		Exec: func(sc *Scenario, env *Env) *Result {
@@ -249,7 +270,15 @@ func init() {
 		ReachKeys:  []string{"crop.cycles", "reach.maturity", "reach.n-stress", "reach.water-stress", "reach.root-limit", "reach.frost-on-crop", "reach.winter-crop-across-year"},
 		Assumptions: []string{
 			"the soil's root limit is taken as the profile value, scaled up only when the crop's documented depth factor exceeds its neutral value 11",
-			"permanent crops and ad-hoc catch-crop sets are not generated (not claimed by the property)",
+			"permanent crops are generated only as the ley that precedes the annual crops of a rotation and are not judged themselves (not claimed by the property); ad-hoc catch-crop sets are not generated",
 		},
 	})
+}
+
+func perennialCrop(code string) bool {
+	switch strings.TrimSpace(code) {
+	case "AA", "GR":
+		return true
+	}
+	return false
 }
